@@ -3,6 +3,13 @@ From BV Require Import lib.Ints gen.Params_gen model.Package model.PackageAccept
   proofs.PackageLemmas proofs.PackageAcceptLemmas.
 Local Open Scope Z_scope.
 
+Lemma desc_closed_b_sound P R : desc_closed_b P R = true -> desc_closed P R.
+Proof.
+  unfold desc_closed_b, desc_closed. rewrite forallb_forall. intros H t x Ht Hx Hs.
+  specialize (H t Ht). apply orb_true_iff in H. destruct H as [H|H]; [|apply zmem_In; exact H].
+  apply negb_true_iff in H. rewrite existsb_false_forall in H. rewrite (H x Hx) in Hs. discriminate.
+Qed.
+
 Lemma toy3_single_ok utxo : single_ok utxo (toy3_single utxo).
 Proof.
   intros P tx res P' _ _. unfold toy3_single.
@@ -10,10 +17,20 @@ Proof.
   { intros E. inversion E; subst. left. exists true, WHY_MISSING_INPUTS. auto. }
   destruct (p_fee tx <? fee_for (vsize_of tx)).
   { intros E. inversion E; subst. left. exists true, WHY_MIN_RELAY_FEE. auto. }
-  destruct (single_truc_checks P tx (parents_of P tx) [] (vsize_of tx)).
+  destruct (single_truc_checks P tx (parents_of P tx) (direct_conflicts P tx) (vsize_of tx)).
   { intros E. inversion E; subst. left. exists false, WHY_TRUC. auto. }
-  intros E. inversion E; subst. right. split; [reflexivity|]. exists []. rewrite remove_set_nil.
-  split; [reflexivity|]. split; [apply desc_closed_nil|]. apply inputs_avail_avail. apply negb_false_iff in Ha. exact Ha.
+  destruct (direct_conflicts P tx) as [|c0 cs] eqn:Hc.
+  { intros E. inversion E; subst. right. split; [reflexivity|]. exists []. rewrite remove_set_nil.
+    split; [reflexivity|]. split; [apply desc_closed_nil|]. apply inputs_avail_avail. apply negb_false_iff in Ha. exact Ha. }
+  destruct (_ || _).
+  { intros E. inversion E; subst. left. exists true, WHY_INSUFFICIENT_FEE. auto. }
+  destruct (negb (inputs_avail utxo (remove_set (desc_txids P (c0 :: cs)) P) tx)) eqn:Hav.
+  { intros E. inversion E; subst. left. exists false, WHY_SPENDS_CONFLICT. auto. }
+  destruct (negb (desc_closed_b P (desc_txids P (c0 :: cs)))) eqn:Hdc.
+  { intros E. inversion E; subst. left. exists false, WHY_SPENDS_CONFLICT. auto. }
+  intros E. inversion E; subst. right. split; [reflexivity|]. exists (desc_txids P (c0 :: cs)).
+  split; [reflexivity|]. split; [apply desc_closed_b_sound; apply negb_false_iff in Hdc; exact Hdc|].
+  apply inputs_avail_avail. apply negb_false_iff in Hav. exact Hav.
 Qed.
 
 Lemma toy3_prechecks_Some utxo P : forall txns Q t r, toy3_prechecks utxo P Q txns = Some (t, r) ->
